@@ -26,7 +26,7 @@ MonInit(cfg) ==
    eclosing |-> {}, emaybe |-> 0,
    expC |-> <<>>, expE |-> <<>>, H |-> {}, stray |-> <<>>,
    rel |-> 0, relwin |-> FALSE,
-   lost |-> FALSE, idleOk |-> FALSE, lout |-> [k |-> "none", c |-> -1, args |-> <<>>, why |-> ""], owed |-> {}, rt |-> FALSE,
+   lost |-> FALSE, idleOk |-> FALSE, lastfail |-> <<-1, -1>>, lout |-> [k |-> "none", c |-> -1, args |-> <<>>, why |-> ""], owed |-> {}, rt |-> FALSE,
    bad |-> <<>>, ulog |-> <<>>, uncl |-> 0, txns |-> 0, units |-> 0, evs |-> 0]
 
 AddBad(m, p, why) == [m EXCEPT !.bad = IF Len(@) < 12 THEN Append(@, [p |-> p, why |-> why, at |-> m.n, sid |-> m.cfg.sid]) ELSE @,
@@ -110,7 +110,7 @@ AfterVar(m, stat) ==
   IF i + 1 < NVars(cfg, c) /\ stat > 0 THEN [m EXCEPT !.ci = i + 1, !.cph = "wparse"]
   ELSE IF stat > 0 THEN ExpectFinal(m, T_ERROR, "U")
   ELSE IF cmd.need_all /\ i + 1 # NVars(cfg, c) THEN ExpectFinal(m, T_ERROR, "U")
-  ELSE IF ~cmd.hw THEN ExpectFinal(m, T_OK, "C10")
+  ELSE IF ~cmd.hw THEN ExpectFinal(m, T_OK, VarTag(VarOf(cfg, c, i)))
   ELSE [m EXCEPT !.cph = "wloop", !.cnp = i + 1]
 
 RECURSIVE AdvWrite(_)
@@ -252,7 +252,8 @@ CanAdv(h, b) == h.p < Len(h.r) /\ h.r[h.p + 1] = b
 
 FinalDone(m, u, body) ==
   LET m1 == [m EXCEPT !.pend = FALSE, !.cph = "idle", !.cc = -1, !.crl = FALSE, !.relwin = FALSE, !.rel = 0]
-      m2 == IF body # u.exp /\ u.tag # "U" THEN AddBad(m1, u.tag, <<"result code", body, "expected", u.exp>>)
+      m2 == IF body # u.exp /\ m.rt THEN AddBad(m1, "C07", <<"READ output fed back as WRITE arguments was answered", body>>)
+            ELSE IF body # u.exp /\ u.tag # "U" THEN AddBad(m1, u.tag, <<"result code", body, "expected", u.exp>>)
             ELSE IF body # u.exp THEN Unclassified(m1) ELSE m1
       m3 == IF m2.owed # {} /\ ~m2.lost THEN
                LET x == CHOOSE x \in m2.owed : TRUE IN AddBad(m2, VarTag(VarOf(m.cfg, x[1], x[2])), <<"accepted value was not stored", x>>)
@@ -303,7 +304,9 @@ StrayVerdict(m) ==
   IF m.stray = <<>> THEN m
   ELSE LET s == m.stray
            isCode == \E nl \in {<<LF>>, <<CR, LF>>} : \E t \in {T_OK, T_ERROR} : Len(s) >= Len(nl \o t) /\ SubSeq(s, 1, Len(nl \o t)) = nl \o t
-       IN [AddBad(m, IF m.cph = "held" /\ isCode THEN "C14,C01" ELSE IF isCode THEN "C01" ELSE "C11", <<"output that nothing owes", s>>) EXCEPT !.stray = <<>>]
+           evctx == m.eclosing # {} \/ m.eph # "idle"      \* an event was processed since the last quiescent point: C10 says events emit no result code
+       IN [AddBad(m, IF m.cph = "held" /\ isCode THEN "C14,C01" ELSE IF isCode /\ evctx THEN "C01,C10" ELSE IF isCode THEN "C01" ELSE "C11",
+                  <<"output that nothing owes", s>>) EXCEPT !.stray = <<>>]
 
 (***************************************************************************)
 (* Events                                                                  *)
@@ -409,10 +412,11 @@ OnVr(m, e) ==
   IN IF forC /\ forE THEN Unclassified(m)
      ELSE IF forC THEN
           LET m1 == MonNested(m, e.in, "c") IN
-          IF m1.lost THEN m1 ELSE IF e.r # 0 THEN ExpectFinal(m1, T_ERROR, "C10") ELSE AdvRead([m1 EXCEPT !.cvr = TRUE])
+          IF m1.lost THEN m1 ELSE IF e.r # 0 THEN ExpectFinal([m1 EXCEPT !.lastfail = <<e.c, e.v>>], T_ERROR, "C10") ELSE AdvRead([m1 EXCEPT !.cvr = TRUE])
      ELSE IF forE THEN
           LET m1 == MonNested([m EXCEPT !.emaybe = 0], e.in, "e") IN
-          IF m1.lost THEN m1 ELSE IF e.r # 0 THEN StartEv(EvDone(m1)) ELSE AdvEvRead([m1 EXCEPT !.evr = TRUE])
+          IF m1.lost THEN m1 ELSE IF e.r # 0 THEN StartEv(EvDone([m1 EXCEPT !.lastfail = <<e.c, e.v>>])) ELSE AdvEvRead([m1 EXCEPT !.evr = TRUE])
+     ELSE IF m.lastfail = <<e.c, e.v>> THEN AddBad(m, "C10", <<"variable callback failed but the processing was not aborted", e.c, e.v>>)
      ELSE IF e.c # m.cc /\ e.c # m.ec THEN
           AddBad(m, IF Disabled(m.cfg, e.c) THEN "C09" ELSE "C02", <<"variable callback of a command that is not being processed", e.c, e.v>>)
      ELSE Unclassified(m)
@@ -468,7 +472,8 @@ OnEvent(m, e) ==
     [] e.k = "vr" -> IF m.lost THEN MonNestedLost(m, e.in) ELSE OnVr(m, e)
     [] e.k = "vw" -> IF m.lost THEN MonNestedLost(m, e.in) ELSE OnVw(m, e)
     [] e.k = "mem" -> OnMem(m, e)
-    [] e.k \in {"crash", "canary", "half"} -> [AddBad(m, "C03", <<e.k, e>>) EXCEPT !.lost = m.lost]
+    [] e.k \in {"crash", "canary", "half"} ->
+         [AddBad(m, IF e.k = "canary" /\ e.what = "var" THEN "C05,C03" ELSE "C03", <<e.k, e>>) EXCEPT !.lost = m.lost]
     [] OTHER -> m
 
 (***************************************************************************)
@@ -508,7 +513,7 @@ FoldEvents(m, evs) == IF evs = <<>> THEN m ELSE FoldEvents(OnEvent(m, Head(evs))
 
 Resync(m) == [m EXCEPT !.lost = FALSE, !.cph = "idle", !.cc = -1, !.pend = FALSE, !.expC = <<>>, !.expE = <<>>, !.H = {},
                       !.q = <<>>, !.eph = "idle", !.ec = -1, !.eclosing = {}, !.emaybe = 0, !.rel = 0, !.relwin = FALSE,
-                      !.owed = {}, !.stray = <<>>, !.crl = FALSE, !.idleOk = TRUE]
+                      !.owed = {}, !.stray = <<>>, !.crl = FALSE, !.idleOk = TRUE, !.lastfail = <<-1, -1>>]
 
 \* cat_service returned OK: nothing may be left to do
 Quiescent(m) ==
@@ -518,7 +523,7 @@ Quiescent(m) ==
                    ELSE IF m1.expC # <<>> \/ m1.expE # <<>> \/ m1.H # {} THEN "output is still owed"
                    ELSE IF m1.q # <<>> \/ m1.eph # "idle" THEN "an event is still pending"
                    ELSE ""
-       IN IF what = "" THEN [m1 EXCEPT !.eclosing = {}, !.emaybe = 0, !.idleOk = TRUE]
+       IN IF what = "" THEN [m1 EXCEPT !.eclosing = {}, !.emaybe = 0, !.idleOk = TRUE, !.lastfail = <<-1, -1>>]
           ELSE Resync(AddBad(m1, IF what = "an event is still pending" THEN "C15,C13" ELSE "C15", <<"cat_service returned OK but", what>>))
 
 MonSvc(m, rec) ==
